@@ -22,6 +22,9 @@ type errCase struct {
 	// Want: "count" (only defect is the word count), "checksum" (only defect is the
 	// checksum), "unknown" (acceptable count, some token not in the list), "valid".
 	Want string `json:"want"`
+	// Prime: a validation made immediately before (result ignored), e.g. the same sentence under
+	// the language in which it is valid.
+	Prime *primeCall `json:"prime,omitempty"`
 }
 
 var c15Check = register("C15", "c15.error", func(c *errCase) error {
@@ -57,8 +60,12 @@ var c15Check = register("C15", "c15.error", func(c *errCase) error {
 			harnessError("c15: unknown token %q is empty or contains white space", u)
 		}
 	}
+	c.Prime.run()
 	err, p := implCheck(s, implLang[l])
 	sig := fmt.Sprintf("C15 %s lang=%s", c.Want, l)
+	if c.Prime != nil {
+		sig += " primed"
+	}
 	if p != nil {
 		return failf(sig+" panic", "CheckMnemonic(%q, %s) panicked: %v", s, l, p)
 	}
@@ -95,7 +102,7 @@ var c15Check = register("C15", "c15.error", func(c *errCase) error {
 	return nil
 })
 
-const c15Rule = "C15: valid sentences damaged by exactly one defect class, re-classified by the reference model before use: (i) k list words for every k in 0..40 outside {12,15,18,21,24}; (ii) right count, all list words, wrong checksum (any last word / checksum bits only / leading-zero entropies with the truncated-entropy checksum); (iii) acceptable count with 1..n tokens replaced by non-empty, whitespace-free strings not in the list (words of other lists, case/affix damage, arbitrary Unicode, invalid UTF-8), checksum arbitrary; (iv) valid sentences. Oracle: errors.Is against the sentinels; for (iii) a non-sentinel error whose message contains an unknown token. Non-trivial: classes (i)-(iii) outside English 12-word sentences; distinct by (language, text)"
+const c15Rule = "C15: valid sentences damaged by exactly one defect class, re-classified by the reference model before use: (i) k list words for every k in 0..40 outside {12,15,18,21,24}; (ii) right count, all list words, wrong checksum (any last word / checksum bits only / leading-zero entropies with the truncated-entropy checksum); (iii) acceptable count with 1..n tokens replaced by non-empty, whitespace-free strings not in the list (words of other lists, case/affix damage, arbitrary Unicode, invalid UTF-8), checksum arbitrary; (iv) valid sentences; (v) a valid sentence judged under another language immediately after being accepted under its own (class re-derived by the reference). Oracle: errors.Is against the sentinels; for (iii) a non-sentinel error whose message contains an unknown token. Non-trivial: classes (i)-(iii) outside English 12-word sentences; distinct by (language, text)"
 
 func TestC15_Errors(t *testing.T) {
 	cov.Rule(c15Rule)
@@ -205,6 +212,16 @@ func TestC15_Errors(t *testing.T) {
 			}
 		}
 		c := &errCase{Lang: l.Name(), Text: text(s), Want: want}
+		if want == "valid" && rapid.Bool().Draw(rt, "then-other-language") {
+			// the sentence was just accepted under its own language; now it is judged under another
+			// one, where it has unknown tokens (or, for shared words, only a checksum defect)
+			l2 := gen.Lang().Draw(rt, "lang2")
+			if class, _ := classifyText(l2, s); class != "combined" && l2 != l {
+				c = &errCase{Lang: l2.Name(), Text: text(s), Want: class, Prime: &primeCall{Lang: l.Name(), Text: text(s)}}
+				l = l2
+				cov.Class("primed-by-valid-under-other-language")
+			}
+		}
 		c15Record(c, l)
 		if k++; k%499 == 1 {
 			cov.Sample("c15.error", c)
